@@ -254,6 +254,26 @@ func charClassOf(t *syntax.Regexp) (*syntax.Regexp, bool) {
 	if t.Op == syntax.OpCharClass {
 		return t, true
 	}
+	// ^[class]$, ^[class]*$, [class]+ … : the class a one-character operand is tested against
+	var inner *syntax.Regexp
+	switch t.Op {
+	case syntax.OpConcat:
+		for _, s := range t.Sub {
+			switch s.Op {
+			case syntax.OpBeginText, syntax.OpEndText, syntax.OpBeginLine, syntax.OpEndLine:
+			default:
+				if inner != nil {
+					return nil, false
+				}
+				inner = s
+			}
+		}
+	case syntax.OpStar, syntax.OpPlus, syntax.OpQuest, syntax.OpCapture:
+		inner = t.Sub[0]
+	}
+	if inner != nil {
+		return charClassOf(inner)
+	}
 	return nil, false
 }
 
